@@ -361,6 +361,10 @@ def suites(tier, seed):
     # the two rewriting steps (ANSI escapes removed, ']]>' split) interact: all short sequences of the tokens involved
     tokens = ["]]", "]", ">", "\x1b[31m", "\x1b[0m", "]]>", "a", "\x01"]
     texts += ["".join(t) for n in range(2, 6 if thorough else 5) for t in itertools.product(tokens, repeat=n)]
+    # every code point at and around the boundaries of the XML Char production, alone between two letters
+    sweep = (list(range(0x00, 0x21)) + list(range(0x7f, 0xa1)) +
+             [0xd7ff, 0xe000, 0xfdcf, 0xfdd0, 0xfdef, 0xfdf0, 0xfffd, 0xfffe, 0xffff, 0x10000, 0x1fffe, 0x1ffff, 0x10fffe, 0x10ffff])
+    texts += ["a%sb" % chr(c) for c in sweep] + ["%s]]>%s" % (chr(c), chr(c)) for c in (0x0b, 0x0c, 0x0e, 0x1f, 0x85)]
     esc = {"name": "escaping", "cases": [{"text": t} for t in texts], "impl": impl_escape, "oracle": oracle_escape, "exhaustive": True,
            "nontrivial": lambda c, o: any(ch in c["text"] for ch in "<&\"]\x01\x1b"),
            "bound": "all %d strings up to length %d over %d hostile characters, plus random ones over the full hostile pool" % (
